@@ -84,6 +84,7 @@ package gzip
 //@ func (*GzipResponseWriter).Hijack
 //@   props C17
 //@   requires grw != nil
-//@   assigns nothing
+//@   // hands on the connection together with the server's buffered reader over it (ghosts of C09)
+//@   assigns wrapperOf, mayHold
 //@   // taking over the connection sends nothing through the writer: no status, no header decision, no body byte
 //@   ensures lastStatus == old(lastStatus) && statusWrites == old(statusWrites)
